@@ -1193,6 +1193,8 @@ def _variants():
         V("rename-other", rename_local(MP, "MeshPatt.__lt__", "other", "rhs"), "silent"),
         V("perm-le-cascaded-correct", replace_stmt(PE, "Perm.__le__", "return (len(self), tuple(self)) <= (len(other), tuple(other))",
                                                    "if len(self) != len(other):\n    return len(self) < len(other)\nreturn tuple(self) <= tuple(other)"), "silent", note="a correct case analysis is the same order on all abstract cases"),
+        V("basis-ne-removed", remove_def("permuta/perm_sets/basis.py", "Basis.__ne__"), "fire", "C08-R8", note="the defect repaired by d901eef"),
+        V("meshbasis-ne-other-spelling", replace_stmt("permuta/perm_sets/basis.py", "MeshBasis.__ne__", "return not self == other", "return not self.__eq__(other)"), "silent"),
         V("mesh-hash-starred-set", replace_expr(MP, "MeshPatt.__hash__", "hash((self.pattern, self.shading))", "hash((self.pattern, *self.shading))"), "fire", "C08-R2"),
         V("perm-le-tuple-dunder-wrong", replace_stmt(PE, "Perm.__le__", "return (len(self), tuple(self)) <= (len(other), tuple(other))", "return len(self) < len(other) or tuple.__le__(self, other)"), "fire", "C08-R6"),
         V("perm-le-tuple-dunder-right", replace_stmt(PE, "Perm.__le__", "return (len(self), tuple(self)) <= (len(other), tuple(other))", "return len(self) < len(other) or (len(self) == len(other) and tuple.__le__(self, other))"), "silent"),
@@ -1201,3 +1203,45 @@ def _variants():
         V("mesh-lt-components-swapped", [replace_expr(MP, "MeshPatt.__lt__", "(self.pattern, sorted(self.shading)) < (other.pattern, sorted(other.shading))", "(sorted(self.shading), self.pattern) < (sorted(other.shading), other.pattern)")], "fire", "C08-R6", note="__lt__ and __le__ would then order by different keys"),
         V("mesh-eq-guard-meshpatt", replace_expr(MP, "MeshPatt.__eq__", "isinstance(other, self.__class__)", "isinstance(other, MeshPatt)"), "silent"),
     ]
+
+
+# ------------------------------------------------------------------ R8: `!=` is the negation of `==`
+
+
+BUILTIN_WITH_NE = {"tuple", "Tuple", "list", "List", "frozenset", "FrozenSet", "set", "Set", "dict", "Dict", "str", "int", "bytes", "float"}
+
+
+def rule_r8(ctx: Ctx, classes: List[ClassInfo]) -> None:
+    """Python derives `!=` from `__eq__` only when no class of the MRO other than `object` defines `__ne__`.  The builtin
+    containers and numbers do define it: a subclass of tuple / frozenset / ... that overrides `__eq__` without `__ne__`
+    keeps the builtin `!=`, so `a == b` and `a != b` can both be False (or both True)."""
+    repo = ctx.repo
+    n = 0
+    for ci in classes:
+        if "__eq__" not in ci.methods:
+            continue
+        n += 1
+        mro = repo.mro(ci.name)
+        has_ne = any("__ne__" in k.methods or "__ne__" in k.assigns for k in mro)
+        builtin = sorted({b.split("[")[0] for k in mro for b in k.base_names} & BUILTIN_WITH_NE)
+        if has_ne:
+            ctx.ok("C08-R8", ci.where, "defines __ne__ together with __eq__", ci.methods["__eq__"].node, ci.methods["__eq__"])
+        elif builtin:
+            ctx.violation("C08-R8", ci.methods["__eq__"], ci.methods["__eq__"].node,
+                          f"{ci.name} overrides __eq__ but inherits `!=` from {builtin[0]}: for an operand its __eq__ rejects (another kind of object with the same entries) both `==` and `!=` are False",
+                          tag="ne-not-negation-of-eq")
+        else:
+            ctx.ok("C08-R8", ci.where, "`!=` is derived from __eq__ (no base class defines __ne__)", ci.methods["__eq__"].node, ci.methods["__eq__"])
+    if n == 0:
+        raise AnalysisError("no class with __eq__ in scope")
+
+
+_OLD_RUN_R8 = run
+
+
+def run(ctx: Ctx) -> None:  # noqa: F811
+    _OLD_RUN_R8(ctx)
+    ctx.run(rule_r8, ctx, in_scope(ctx.repo))
+
+
+FLOORS["C08-R8"] = 3
